@@ -215,7 +215,7 @@ Definition getExtensionAs {R} (cast : ext -> option R) (exts : option (list ext)
 
 class RegionTranslator:
     def __init__(self, unit_name, schema, namespace, fdef, start, end, inputs, ext_registry,
-                 externals=None, ignore_self_stores=True):
+                 externals=None, ignore_self_stores=True, opaque=None):
         self.unit = unit_name
         self.schema = schema
         self.ns = namespace
@@ -224,6 +224,9 @@ class RegionTranslator:
         self.inputs = list(inputs)            # [(name, type)]
         self.ext_registry = ext_registry      # {input/class name -> function(ext_type_int) -> class name}
         self.externals = externals or {}
+        # source text of an expression over the endpoint's own state -> (input name, type): the value is an
+        # arbitrary input of the model (the theorems quantify over it; the tie observes the real value)
+        self.opaque = opaque or {}
         self.defs = []                        # emitted continuation definitions (text)
         self.nk = 0
         self.boundaries = []
@@ -353,6 +356,9 @@ class RegionTranslator:
 
     # ------------------------------------------------------------ expressions
     def expr(self, e, env):
+        if self.opaque and isinstance(e, (ast.Call, ast.Attribute)) and ast.unparse(e) in self.opaque:
+            name, ty = self.opaque[ast.unparse(e)]
+            return Term(name, ty)
         if isinstance(e, ast.Constant):
             v = e.value
             if v is None:
@@ -1089,7 +1095,10 @@ class RegionTranslator:
             out.append('Lemma %s_ok : forall %s, %scrash_in %s (%s %s).' % (
                 name, ' '.join(self.kont_params[name]), h, sites_name, name, ' '.join(self.kont_params[name])))
             out.append('Proof. intros. unfold %s. c08_symex. Qed.' % name)
-            out.append('#[local] Hint Resolve %s_ok : c08gen.\n' % name)
+            out.append('#[local] Hint Resolve %s_ok : c08gen.' % name)
+            # from here on the continuation is used only through its lemma (a failing premise must
+            # make the script fail at once instead of re-enumerating the paths behind the boundary)
+            out.append('#[local] Opaque %s.\n' % name)
         return '\n'.join(out)
 
 
